@@ -1,5 +1,5 @@
 CONSTANTS MaxRow = 1048576 MaxCol = 16384 MaxSheets = 3 Depth = 3 Rich = TRUE EmitReplay = FALSE Wide = FALSE
 SPECIFICATION MCSpec
 VIEW View
-INVARIANTS SavedOK DecodedEqualsModel
+INVARIANTS SavedOK DecodedEqualsModel RulesCarried
 CHECK_DEADLOCK FALSE
